@@ -302,11 +302,9 @@ def obligations(tier, seed):
                         pre=["len(s) <= %d" % n], budget=300 if tier == "quick" else 2000))
     # duration_isoformat on a timedelta-like record with symbolic integer fields, split by magnitude so that each obligation has a
     # small number of digit-count paths: sub-minute with microseconds; time of day; days (either sign)
-    dur = [("sub-minute/us-digits=%d" % k, ["days == 0", "0 <= secs < 60", "%d <= us < %d" % (10 ** (k - 1), 10 ** k)]) for k in range(1, 5 if tier == "quick" else 7)]
+    dur = [("sub-minute/us-digits=%d" % k, ["days == 0", "0 <= secs < 60", "%d <= us < %d" % (10 ** (k - 1), 10 ** k)]) for k in range(1, 5)]
     dur += [("time-of-day", ["days == 0", "0 <= secs < 86400", "us == 0"]),
            ("days", ["-100 < days < 100", "0 <= secs < 60", "0 <= us < 10"])]
-    if tier == "thorough":
-        dur.append(("day-time-us", ["0 <= days < 10", "0 <= secs < 86400", "0 <= us < 1000000"]))
     for name, pre in dur:
         obs.append(dict(oid="K/duration-iso/%s" % name, family="k-duration-iso", desc={}, sig=[("days", "i"), ("secs", "i"), ("us", "i")], pre=pre,
                         budget=300 if tier == "quick" else 1200))
@@ -317,8 +315,8 @@ def bounds(tier):
     return {"k-int-range": "13 integer-derived datatypes, all integers (unbounded)", "k-boolean": "all strings of length <= 5",
             "k-eq-numeric": "Literal.eq / neq for every pair of 6 numeric datatypes, values all integers (unbounded), and against a Python int",
             "k-days-in-month": "all integer years, months 1..12", "k-ws-idempotent": "all strings of length <= %d" % (3 if tier == "quick" else 4),
-            "k-duration-iso": "duration_isoformat on a timedelta-like record: |days| < 100, every second of the day, microsecond counts below 10^4 "
-                              "(thorough: all), in 6 (thorough 9) magnitude classes; the text is read back by a grammar-derived reader and must denote the same number of microseconds",
+            "k-duration-iso": "duration_isoformat on a timedelta-like record: |days| < 100, every second of the day, microsecond counts below 10^4, "
+                              "in 6 magnitude classes; the text is read back by a grammar-derived reader and must denote the same number of microseconds",
             "regex-inclusion": "XSD duration and language lexical spaces within the live parsing patterns, strings of every length",
             "outside": "float/double/decimal/date/time/dateTime value mappings, Literal construction itself, eq() on values"}
 
